@@ -72,11 +72,20 @@ class Ctx(object):
                 stack.append([(i, a, _snap(a)) for i, a in list(enumerate(args)) + list(kwargs.items())
                               if isinstance(a, (np.ndarray, list))])
 
+            held = []      # (result object, snapshot) of the previous call: a result must not change when the function is called again
+
             def after(args, kwargs, result, exc):
                 for i, a, s in stack.pop():
                     same = _same(a, s)
                     mon.check("pure:%s" % label, same, observed=None if same else a, expected=None if same else s,
                               detail=None if same else "argument %r was modified in place by the call" % (i,))
+                if held:
+                    prev, snap = held.pop()
+                    same = _same_result(prev, snap)
+                    mon.check("stable:%s" % label, same, observed=None if same else _snap_result(prev), expected=None if same else snap,
+                              detail=None if same else "a result returned earlier changed when the function was called again")
+                if exc is None and _holdable(result):
+                    held.append((result, _snap_result(result)))
             contracts.spy(module, name, before, after)
         c = contracts.ensure(module, name, cond)
         self.counters[label] = c
@@ -85,6 +94,37 @@ class Ctx(object):
 
 def _snap(a):
     return a.copy() if isinstance(a, np.ndarray) else jsonable(a)
+
+
+def _holdable(r):
+    if isinstance(r, np.ndarray):
+        return r.size <= 20000
+    if isinstance(r, (list, tuple)):
+        return len(r) <= 64 and all(isinstance(v, (np.ndarray, list, tuple, float, int, np.floating, np.integer)) for v in r)
+    return False
+
+
+def _snap_result(r):
+    if isinstance(r, np.ndarray):
+        return r.copy()
+    return [v.copy() if isinstance(v, np.ndarray) else jsonable(v) for v in r]
+
+
+def _same_result(r, s):
+    try:
+        if isinstance(r, np.ndarray):
+            return r.shape == s.shape and bool(np.array_equal(r, s, equal_nan=True))
+        if len(r) != len(s):
+            return False
+        for v, w in zip(r, s):
+            if isinstance(v, np.ndarray):
+                if not (v.shape == w.shape and np.array_equal(v, w, equal_nan=True)):
+                    return False
+            elif jsonable(v) != w:
+                return False
+        return True
+    except Exception:
+        return True
 
 
 def _same(a, s):
